@@ -561,7 +561,8 @@ fn c08_prefix_world(ctx: &Ctx, depth: usize) -> (u64, u64) {
     for _ in 0..depth {
         let mut next = vec![];
         for f in &frontier {
-            for o in 0..ops.len() {
+            for o in 0..=ops.len() {
+                // index ops.len() = instantiation of a further contract
                 let mut n = f.clone();
                 n.push(o);
                 next.push(n);
@@ -575,6 +576,33 @@ fn c08_prefix_world(ctx: &Ctx, depth: usize) -> (u64, u64) {
         let mut app = build();
         let mut model: Vec<super::model::Map> = vec![Default::default(); contracts.len()];
         for oi in sq {
+            if *oi == ops.len() {
+                // a newcomer: one more instantiation, for which the generator has only occupied
+                // addresses left. Rejected or not, the code running for it must not see anything
+                // the live contracts wrote, and their data must stay what it is (checked below
+                // by the next operation's / the final comparison of all views).
+                super::puppet::set_script(std::rc::Rc::new(Program { entry: Entry::WasmSudo { contract: String::new() }, root: 0, nodes: vec![Node { writes: vec![WriteOp::Set(b"k".to_vec(), b"intruder".to_vec())], ..Default::default() }] }));
+                let r = catch(|| app.instantiate_contract(1, Addr::unchecked("user2"), &super::puppet::NodeMsg { n: 0 }, &[], "newcomer", None));
+                let trace = take_trace();
+                transitions += 1;
+                if let Some(rec) = trace.first() {
+                    if !rec.own_store.is_empty() {
+                        ctx.violation("c08:prefix-addresses:new-contract-sees-existing-data", json!({"engine": "prefix-world", "ops": sq.iter().map(|o| if *o == ops.len() { "instantiate".to_string() } else { format!("{:?}", ops[*o]) }).collect::<Vec<_>>(), "address": rec.contract, "seen": rec.own_store.iter().map(|(k, v)| format!("{}={}", show(k), show(v))).collect::<Vec<_>>()}));
+                    }
+                }
+                if let Ok(Ok(a)) = &r {
+                    if let Some(ci) = contracts.iter().position(|c| *c == a.as_str()) {
+                        ctx.violation("c08:prefix-addresses:two-contracts-share-one-key-space", json!({"engine": "prefix-world", "address": contracts[ci], "what": "an instantiation was accepted at the address of a live contract: both run on one key space"}));
+                    }
+                }
+                for (ci, cn) in contracts.iter().enumerate() {
+                    let dump: super::model::Map = app.dump_wasm_raw(&Addr::unchecked(*cn)).into_iter().collect();
+                    if dump != model[ci] {
+                        ctx.violation("c08:prefix-addresses:views-differ-from-model", json!({"engine": "prefix-world", "observed_contract": cn, "after": "instantiation of a further contract", "dump": dump.iter().map(|(k, v)| format!("{}={}", show(k), show(v))).collect::<Vec<_>>(), "model": model[ci].iter().map(|(k, v)| format!("{}={}", show(k), show(v))).collect::<Vec<_>>()}));
+                    }
+                }
+                continue;
+            }
             let (c, k, set) = ops[*oi];
             let w = if set { WriteOp::Set(keys[k].to_vec(), format!("v{}", c).into_bytes()) } else { WriteOp::Remove(keys[k].to_vec()) };
             super::puppet::set_script(std::rc::Rc::new(Program { entry: Entry::WasmSudo { contract: String::new() }, root: 0, nodes: vec![Node { writes: vec![w.clone()], ..Default::default() }] }));
@@ -585,7 +613,7 @@ fn c08_prefix_world(ctx: &Ctx, depth: usize) -> (u64, u64) {
             if let Some(rec) = trace.first() {
                 let own: super::model::Map = rec.own_store.iter().cloned().collect();
                 if own != model[c] {
-                    ctx.violation("c08:prefix-addresses:own-view-differs", json!({"engine": "prefix-world", "contract": contracts[c], "ops": sq.iter().map(|o| format!("{:?}", ops[*o])).collect::<Vec<_>>()}));
+                    ctx.violation("c08:prefix-addresses:own-view-differs", json!({"engine": "prefix-world", "contract": contracts[c], "ops": sq.iter().map(|o| if *o == ops.len() { "instantiate".to_string() } else { format!("{:?}", ops[*o]) }).collect::<Vec<_>>()}));
                 }
             }
             match w {
@@ -614,7 +642,7 @@ fn c08_prefix_world(ctx: &Ctx, depth: usize) -> (u64, u64) {
                 if dump != model[ci] || scan != model[ci] || !raw_ok {
                     ctx.violation(
                         "c08:prefix-addresses:views-differ-from-model",
-                        json!({"engine": "prefix-world", "observed_contract": cn, "ops": sq.iter().map(|o| { let (c, k, s) = ops[*o]; format!("{} {} {}", contracts[c], if s { "set" } else { "remove" }, show(keys[k])) }).collect::<Vec<_>>(),
+                        json!({"engine": "prefix-world", "observed_contract": cn, "ops": sq.iter().map(|o| { if *o == ops.len() { return "instantiate a further contract".to_string(); } let (c, k, s) = ops[*o]; format!("{} {} {}", contracts[c], if s { "set" } else { "remove" }, show(keys[k])) }).collect::<Vec<_>>(),
                                "dump": dump.iter().map(|(k, v)| format!("{}={}", show(k), show(v))).collect::<Vec<_>>(), "model": model[ci].iter().map(|(k, v)| format!("{}={}", show(k), show(v))).collect::<Vec<_>>(), "raw_queries_agree": raw_ok}),
                     );
                 }
